@@ -106,6 +106,9 @@ type BufferObj struct {
 	Base    Term // offset of byte 0 within Content
 	Len     Term
 	Fresh   bool // never written
+	ViewOf  *Cell // set when the buffer holds exactly the bytes [From, Upto) of that source stream
+	From    Term
+	Upto    Term
 }
 type OnceObj struct{ Done Term }
 
